@@ -124,7 +124,7 @@ def _draw_ns_event(vc, tag, name, with_type=True, full=True):
 
 
 @harness('O5', targets=['kopf._core.reactor.observation.revise_namespaces', 'kopf._core.reactor.observation.is_deleted',
-                        'kopf._core.reactor.observation.get_blockers'], props=['C19'],
+                        'kopf._core.reactor.observation.get_blockers'], props=['C19', 'C13'],
          clauses=['deleted_event_removes', 'terminated_removed', 'pending_termination_unchanged', 'live_matching_added',
                   'unmatched_unchanged', 'others_untouched', 'every_pattern_consulted', 'never_crashes'],
          canaries=['canary.never_added', 'canary.never_removed', 'canary.always_changes'],
@@ -217,7 +217,7 @@ def O5(vc):
 
 # ================================================================================================ O6
 @harness('O6', targets=['kopf._core.reactor.observation.process_discovered_namespace_event',
-                        'kopf._core.reactor.observation.process_discovered_resource_event'], props=['C19'],
+                        'kopf._core.reactor.observation.process_discovered_resource_event'], props=['C19', 'C08', 'C13'],
          clauses=['ns.every_event_revised', 'ns.committed_under_lock_then_notified', 'ns.revises_with_the_event',
                   'res.every_event_rescans', 'res.rescans_the_group_of_the_crd', 'res.committed_under_lock_then_notified',
                   'res.revises_with_the_scan', 'res.backbone_filled', 'failures_propagate'],
@@ -370,7 +370,7 @@ def _ids(rs):
                         'kopf._core.reactor.observation._disable_mismatched_selectors',
                         'kopf._core.reactor.observation._disable_unsuitable_resources',
                         'kopf._cogs.structs.references.Selector.select', 'kopf._cogs.structs.references.Selector.check'],
-         props=['C19'],
+         props=['C19', 'C03', 'C06', 'C08', 'C13', 'C14', 'C15', 'C17', 'C18'],
          clauses=['watched_are_selected_and_suitable', 'every_suitable_unambiguous_selection_watched', 'ambiguous_not_served',
                   'ambiguous_not_served.overlapping', 'nonwatchable_not_served', 'nonpatchable_not_served_when_patching',
                   'ambiguous_not_served.after_group_rescan', 'every_suitable_unambiguous_selection_watched.after_group_rescan',
@@ -648,7 +648,7 @@ def _order_ok(names, *seq):
     return all(names.count(x) == 1 for x in seq) and idx == sorted(idx)
 
 
-@harness('O8', targets='kopf._core.reactor.observation.namespace_observer', props=['C19'],
+@harness('O8', targets='kopf._core.reactor.observation.namespace_observer', props=['C19', 'C13'],
          clauses=['uses_the_backbone_resource', 'population.listing', 'population.fallback_403', 'population.configured',
                   'population.committed_under_lock_then_notified', 'ready_after_population', 'watches_when_permitted',
                   'no_observation_when_configured', 'watch_403_idles', 'other_failures_propagate', 'never_returns'],
@@ -773,7 +773,7 @@ def O8(vc):
     return ('watched', type(thrown).__name__, outcome)
 
 
-@harness('O9', targets='kopf._core.reactor.observation.resource_observer', props=['C19'],
+@harness('O9', targets='kopf._core.reactor.observation.resource_observer', props=['C19', 'C13', 'C17'],
          clauses=['scans_the_groups_of_all_selectors', 'population.revised_with_the_scan', 'population.backbone_filled',
                   'population.committed_under_lock_then_notified', 'ready_after_population', 'uses_the_backbone_resource',
                   'watches_when_enabled', 'disabled_idles', 'watch_403_idles', 'other_failures_propagate', 'never_returns'],
@@ -1063,7 +1063,7 @@ def O10c(vc):
 
 
 # ================================================================================================ O11
-@bounded('O11', targets='kopf._cogs.structs.references.Resource.get_url', props=['C08', 'C19'],
+@bounded('O11', targets='kopf._cogs.structs.references.Resource.get_url', props=['C08', 'C19', 'C03', 'C06', 'C13', 'C17'],
          clauses=['path_addresses_exactly_the_object', 'api_root', 'query_is_the_params', 'server_prefix', 'refusals'],
          universe='(group, version) in {("", v1), (example.com, v1), (example.com, v1beta1), (apps, v1)} x namespaced {True, False} x '
                   'namespace {None, ns1} x name {None, obj1} x subresource {None, status} x params {None, {}, 1 pair, 2 pairs with '
@@ -1145,7 +1145,7 @@ class _Cond(_Revised):
 
 
 @harness('O11b', targets=['kopf._cogs.structs.references.Backbone.fill', 'kopf._cogs.structs.references.Backbone.wait_for'],
-         props=['C19'],
+         props=['C19', 'C03', 'C13'],
          clauses=['fill.first_found_wins', 'fill.every_match_found', 'fill.never_replaced', 'fill.notified_under_lock',
                   'wait.returns_the_found_resource', 'wait.blocks_until_found'],
          canaries=['canary.always_filled', 'canary.never_blocks'],
@@ -1262,7 +1262,7 @@ class _Response:
 
 
 @harness('N5', targets=['kopf._cogs.clients.api.get', 'kopf._cogs.clients.api.post', 'kopf._cogs.clients.api.patch',
-                        'kopf._cogs.clients.api.delete'], props=['C12', 'C08', 'C19', 'C13', 'C03'],
+                        'kopf._cogs.clients.api.delete'], props=['C12', 'C08', 'C19', 'C13', 'C03', 'C01', 'C02', 'C05', 'C06', 'C07', 'C20'],
          clauses=['goes_through_request', 'arguments_passed_through', 'returns_the_parsed_body', 'response_released',
                   'failures_propagate'],
          canaries=['canary.never_fails', 'canary.always_fails'],
@@ -1346,7 +1346,7 @@ def _collect(agen):
             raise RuntimeError('the generator suspended')
 
 
-@bounded('N6', targets='kopf._cogs.clients.api.iter_jsonlines', props=['C19'],
+@bounded('N6', targets='kopf._cogs.clients.api.iter_jsonlines', props=['C19', 'C03'],
          clauses=['yields_the_nonempty_lines_in_order', 'chunk_size_passed', 'no_crash'],
          universe='every byte text over {a, b, LF} up to length 7 (3280 texts) x every way to cut it into non-empty chunks '
                   '(2^(n-1)) plus variants with empty chunks interleaved; + 300 seeded random texts of length 8..40 over '
@@ -1446,7 +1446,7 @@ class _Stopper:
         return n - len(self.callbacks)
 
 
-@harness('N6s', targets='kopf._cogs.clients.api.stream', props=['C19', 'C12'],
+@harness('N6s', targets='kopf._cogs.clients.api.stream', props=['C19', 'C12', 'C13', 'C01', 'C03'],
          clauses=['one_get_request', 'one_object_per_line', 'response_closed_on_every_exit', 'stopper.before_response',
                   'stopper.cancels_the_pending_request', 'stopper.closes_the_stream', 'stopper.ends_silently',
                   'callbacks_removed', 'other_failures_propagate'],
@@ -1665,7 +1665,7 @@ class _Closable:
                         'kopf._cogs.structs.credentials.Vault._expire', 'kopf._cogs.structs.credentials.Vault.expire',
                         'kopf._cogs.structs.credentials.Vault._flush_caches', 'kopf._cogs.structs.credentials.Vault.close',
                         'kopf._cogs.structs.credentials.Vault._items', 'kopf._cogs.structs.credentials.Vault.extended'],
-         props=['C12'],
+         props=['C12', 'C03', 'C13', 'C19', 'C20'],
          clauses=['next_expiration_is_the_earliest', 'is_empty_iff_all_expired', 'expire.drops_exactly_the_expired',
                   'expire.caches_flushed_before_removal', 'expire.not_remembered_as_invalid', 'expire.reauth_when_nothing_left',
                   'expire.quick_path', 'flush.closes_every_cached_object', 'close.flushes_all_under_lock',
@@ -1971,7 +1971,7 @@ def _n7_extended(vc, sc):
 # ================================================================================================ N8
 @harness('N8', targets=['kopf._cogs.clients.auth.APIContext.add_response', 'kopf._cogs.clients.auth.APIContext.flush_closed_responses',
                         'kopf._cogs.clients.auth.APIContext.close_open_responses', 'kopf._cogs.clients.auth.APIContext.close'],
-         props=['C12'],
+         props=['C12', 'C19'],
          clauses=['add.tracks_open_responses_only', 'add.forgets_closed_ones', 'close_open.closes_every_open_response',
                   'close_open.forgets_all', 'close.responses_before_session', 'close.session_closed_once'],
          canaries=['canary.always_tracked', 'canary.nothing_to_close'],
@@ -2077,7 +2077,7 @@ class _SymSelector:
 
 @harness('O7u', targets=['kopf._core.reactor.observation._disable_unsuitable_resources',
                          'kopf._core.reactor.observation._disable_ambiguous_selectors',
-                         'kopf._core.reactor.observation._disable_mismatched_selectors'], props=['C19'],
+                         'kopf._core.reactor.observation._disable_mismatched_selectors'], props=['C19', 'C15', 'C17'],
          clauses=['unwatchable_removed', 'unpatchable_removed_when_patching', 'suitable_kept', 'readonly_kept_without_patching',
                   'ambiguous.none_of_2plus_served', 'ambiguous.unambiguous_kept', 'ambiguous.generic_never_disables',
                   'mismatched.warns_iff_unresolved', 'mismatched.changes_nothing', 'never_adds', 'warns_when_disabling'],
